@@ -1,0 +1,28 @@
+//go:build verif
+
+// Contracts of package consoleui for the gocv verifier (property C29).
+// Comment-only: no Go code is compiled from this file.
+//
+// symstr(n): a string of n arbitrary bytes. wrapped(what, out, s, indent,
+// chars) splits out at its newlines and states, for what =
+//   "lines":   every line is newline-terminated, starts with indent tabs and
+//              holds between 1 and chars further bytes;
+//   "content": the line texts are consecutive pieces of s, and every byte of
+//              s skipped between or after them is a space (so all non-space
+//              characters of s appear, in order);
+//   "words":   a line ends inside a word only if the line is full (chars
+//              bytes) and contains no space.
+// Termination is the unwinding obligation of the loop (at most len(s)
+// iterations: every iteration consumes at least one byte).
+
+package consoleui
+
+//@ func format
+//@   enum n in TEXTLENS, ind in INDENTS, chars in CHARS
+//@   input:s symstr(n)
+//@   input:indent ind
+//@   input:width chars + 8*ind
+//@   requires no_byte(s, 10) && no_leading_space(s)
+//@   ensures[lines-fit] wrapped("lines", result, s, ind, chars)
+//@   ensures[all-characters-in-order] wrapped("content", result, s, ind, chars)
+//@   ensures[words-split-only-when-too-long] wrapped("words", result, s, ind, chars)
